@@ -49,7 +49,7 @@ var alphabet = []string{
 	"h=>a", "d/h=>d/a",
 	// second family (real character devices, directories whose own tar header carries an overlay
 	// opaque xattr as an archived overlayfs upper directory does):
-	"c", ".wh.c", "d/c", "d/.wh.c", "o/", "o/a", "p/", "p/a",
+	"c", ".wh.c", "o/", "o/a", "p/", "p/a",
 }
 
 const (
@@ -59,7 +59,7 @@ const (
 
 // member attributes of the second family
 var (
-	charDevs  = map[string]bool{"c": true, "d/c": true} // character device 1:3, mode 0666 (a real device, not a whiteout)
+	charDevs  = map[string]bool{"c": true} // character device 1:3, mode 0666 (a real device, not a whiteout)
 	dirXattrs = map[string]map[string]string{
 		"o/": {reftar.XattrOpaqueTrusted: "y", "user.other": "1"},
 		"p/": {reftar.XattrOpaqueUser: "y"},
@@ -1062,7 +1062,7 @@ func main() {
 	runner.Main(runner.Check{
 		ID:    "C07",
 		Level: "exploration",
-		Rule: "layers: every layer of <=3 (thorough 4) members over {a, d/, d/a, .wh.a, d/.wh.a, d/.wh..wh..opq, .wh..wh..opq, .wh.d, '.wh.', .prefetch.landmark, d/.prefetch.landmark, .no.prefetch.landmark} (minus layers with a whiteout and a directory of one name; plus 5 fixed hard-link layers; plus every layer of <=3 members over a second family {c = char device 1:3, .wh.c, d/c, d/.wh.c, o/ with own xattr trusted.overlay.opaque=y + user.other, o/a, p/ with own xattr user.overlay.opaque=y, p/a}) is built with estargz.Build and served by the real node.go over {memory, db} metadata x {trusted,user,all} opaque mode; the served tree (READDIR/LOOKUP/GETATTR/LISTXATTR/GETXATTR/READ through go-fuse's raw bridge) must equal the statement's translation of the tar computed by an archive/tar reference; every call order of {READDIR, LOOKUP(x)} up to length 3 (thorough: 4 for layers of <=3 members) per directory on a fresh root must answer each call like a fresh node does. " +
+		Rule: "layers: every layer of <=3 (thorough 4) members over {a, d/, d/a, .wh.a, d/.wh.a, d/.wh..wh..opq, .wh..wh..opq, .wh.d, '.wh.', .prefetch.landmark, d/.prefetch.landmark, .no.prefetch.landmark} (minus layers with a whiteout and a directory of one name; plus 5 fixed hard-link layers; plus every layer of <=3 members over a second family {c = char device 1:3, .wh.c, o/ with own xattr trusted.overlay.opaque=y + user.other, o/a, p/ with own xattr user.overlay.opaque=y, p/a}) is built with estargz.Build and served by the real node.go over {memory, db} metadata x {trusted,user,all} opaque mode; the served tree (READDIR/LOOKUP/GETATTR/LISTXATTR/GETXATTR/READ through go-fuse's raw bridge) must equal the statement's translation of the tar computed by an archive/tar reference; every call order of {READDIR, LOOKUP(x)} up to length 3 (thorough: 4 for layers of <=3 members) per directory on a fresh root must answer each call like a fresh node does. " +
 			"stacks: for every ordered pair of layers within a family, overlayfs-merge(served lower, served upper) must equal OCI-apply(lower tar, upper tar). " +
 			"non-trivial = layer with a whiteout/opaque/landmark member; call order in which a LOOKUP follows a READDIR (memoised listing consulted); stack whose upper layer deletes or replaces something of the lower layer",
 		Assumptions: []string{
